@@ -561,7 +561,7 @@ func (f *File) Read(p []byte) (n int, err error) {
 	})
 
 	if !f.flags.Read {
-		return -1, os.ErrPermission
+		return 0, os.ErrPermission
 	}
 
 	if len(p) <= 0 {
@@ -569,7 +569,7 @@ func (f *File) Read(p []byte) (n int, err error) {
 	}
 
 	if f.info.IsDir() {
-		return -1, config.ErrIsDirectory
+		return 0, config.ErrIsDirectory
 	}
 
 	f.ioLock.Lock()
@@ -634,7 +634,7 @@ func (f *File) readWithoutLocking(p []byte) (n int, err error) {
 	}
 
 	if err != nil {
-		return -1, err
+		return 0, err
 	}
 
 	return copy(p, w.Bytes()), nil
@@ -648,7 +648,7 @@ func (f *File) ReadAt(p []byte, off int64) (n int, err error) {
 	})
 
 	if !f.flags.Read {
-		return -1, os.ErrPermission
+		return 0, os.ErrPermission
 	}
 
 	if len(p) <= 0 {
@@ -656,7 +656,7 @@ func (f *File) ReadAt(p []byte, off int64) (n int, err error) {
 	}
 
 	if f.info.IsDir() {
-		return -1, config.ErrIsDirectory
+		return 0, config.ErrIsDirectory
 	}
 
 	f.ioLock.Lock()
@@ -665,17 +665,17 @@ func (f *File) ReadAt(p []byte, off int64) (n int, err error) {
 	// A positioned read leaves the cursor where it was
 	curr, err := f.seekWithoutLocking(0, io.SeekCurrent)
 	if err != nil {
-		return -1, err
+		return 0, err
 	}
 
 	if _, err := f.seekWithoutLocking(off, io.SeekStart); err != nil {
-		return -1, err
+		return 0, err
 	}
 
 	n, err = f.readWithoutLocking(p)
 
 	if _, serr := f.seekWithoutLocking(curr, io.SeekStart); serr != nil {
-		return -1, serr
+		return 0, serr
 	}
 
 	return n, err
@@ -703,30 +703,30 @@ func (f *File) Write(p []byte) (n int, err error) {
 	})
 
 	if f.info.IsDir() {
-		return -1, config.ErrIsDirectory
+		return 0, config.ErrIsDirectory
 	}
 
 	if !f.flags.Write {
-		return -1, os.ErrPermission
+		return 0, os.ErrPermission
 	}
 
 	f.ioLock.Lock()
 	defer f.ioLock.Unlock()
 
 	if err := f.enterWriteMode(); err != nil {
-		return -1, err
+		return 0, err
 	}
 
 	if f.flags.Append && len(p) > 0 {
 		// With O_APPEND every write goes to the end, wherever the cursor was moved to
 		if _, err := f.writeBuf.Seek(0, io.SeekEnd); err != nil {
-			return -1, err
+			return 0, err
 		}
 	}
 
 	n, err = f.writeBuf.Write(p)
 	if err != nil {
-		return -1, err
+		return 0, err
 	}
 
 	return n, nil
@@ -740,34 +740,34 @@ func (f *File) WriteAt(p []byte, off int64) (n int, err error) {
 	})
 
 	if f.info.IsDir() {
-		return -1, config.ErrIsDirectory
+		return 0, config.ErrIsDirectory
 	}
 
 	if !f.flags.Write {
-		return -1, os.ErrPermission
+		return 0, os.ErrPermission
 	}
 
 	f.ioLock.Lock()
 	defer f.ioLock.Unlock()
 
 	if err := f.enterWriteMode(); err != nil {
-		return -1, err
+		return 0, err
 	}
 
 	// A positioned write leaves the cursor where it was
 	curr, err := f.seekWithoutLocking(0, io.SeekCurrent)
 	if err != nil {
-		return -1, err
+		return 0, err
 	}
 
 	if _, err := f.seekWithoutLocking(off, io.SeekStart); err != nil {
-		return -1, err
+		return 0, err
 	}
 
 	n, err = f.writeBuf.Write(p)
 
 	if _, serr := f.seekWithoutLocking(curr, io.SeekStart); serr != nil {
-		return -1, serr
+		return 0, serr
 	}
 
 	return n, err
